@@ -308,6 +308,9 @@ package css
 // tokOK: what the parser knows about a token handed out by the lexer
 //@ pred tokOK(tt, data, p) := (tt == DelimToken || tt == AtKeywordToken || tt == IdentToken ==> len(data) >= 1) && (tt == AtKeywordToken ==> len(data) >= 2) && len(data) <= p.l.r.pos && (cap(data) == len(data) || disjoint(data, p.l.r.buf))
 // cpInv: cursor well-formed; the state stack is never empty, its bottom is a root state and every other entry a block state
+// progress measure of the grammar stream: unread bytes and a pending '}' count twice, open blocks once
+//@ pred cpM(p) := 2*(len(p.l.r.buf) - 1 - p.l.r.pos) + len(p.state) + ite(p.prevEnd, 2, 0)
+//@ pred cpMstep(p, r) := r != ErrorGrammar ==> cpM(p) <= old(cpM(p)) + ite(old(p.tt) == ErrorToken, -1, 1)
 //@ pred cpInv(p) := p != nil && p.l != nil && lexInv(p.l) && p.l.r.start == p.l.r.pos && len(p.state) >= 1 && isRootState(p.state[0]) &&
 //@      forall(i, 1, len(p.state), isBlockState(p.state[i])) && tokOK(p.tt, p.data, p) && (p.prevEnd ==> p.l.r.pos >= 1) && (p.tt == CommentToken ==> len(p.state) == 1) &&
 //@      0 <= p.errPos && p.errPos <= len(p.l.r.buf)-1
@@ -328,6 +331,8 @@ package css
 //@   ensures[F,C08] @same-depth: result == DeclarationGrammar || result == TokenGrammar || result == CommentGrammar || result == AtRuleGrammar || result == CustomPropertyGrammar ==> len(p.state) == old(len(p.state))
 //@   ensures[F,C08] @stack-prefix: forall(i, 0, min(len(p.state), old(len(p.state))), p.state[i] == old(p.state[i]))
 //@   ensures[F,C08] @eof-closed: result == ErrorGrammar && p.err == "" ==> len(p.state) == 1
+//@   ensures[T,C01] @measure: cpMstep(p, result)
+//@   loop * candidate[T] cpM(p) <= old(cpM(p))
 
 //@ func Parser.parseDeclarationList
 //@   loop * candidate p.tt != CommentToken
@@ -346,6 +351,8 @@ package css
 //@   ensures[F,C08] @same-depth: result == DeclarationGrammar || result == TokenGrammar || result == CommentGrammar || result == AtRuleGrammar || result == CustomPropertyGrammar ==> len(p.state) == old(len(p.state))
 //@   ensures[F,C08] @stack-prefix: forall(i, 0, min(len(p.state), old(len(p.state))), p.state[i] == old(p.state[i]))
 //@   ensures[F,C08] @eof-closed: result == ErrorGrammar && p.err == "" ==> len(p.state) == 1
+//@   ensures[T,C01] @measure: cpMstep(p, result)
+//@   loop * candidate[T] cpM(p) <= old(cpM(p))
 
 //@ func Parser.parseAtRuleRuleList
 //@   preserves[S] cpInv(p) && p.l.r.pos >= old(p.l.r.pos)
@@ -357,8 +364,11 @@ package css
 //@   ensures[F,C08] @same-depth: result == DeclarationGrammar || result == TokenGrammar || result == CommentGrammar || result == AtRuleGrammar || result == CustomPropertyGrammar ==> len(p.state) == old(len(p.state))
 //@   ensures[F,C08] @stack-prefix: forall(i, 0, min(len(p.state), old(len(p.state))), p.state[i] == old(p.state[i]))
 //@   ensures[F,C08] @eof-closed: result == ErrorGrammar && p.err == "" ==> len(p.state) == 1
+//@   ensures[T,C01] @measure: cpMstep(p, result)
+//@   loop * candidate[T] cpM(p) <= old(cpM(p))
 
 //@ func Parser.parseAtRuleDeclarationList
+//@   loop * candidate[T] old(p.tt) != SemicolonToken ==> p.tt == old(p.tt)
 //@   loop * candidate len(p.state) == old(len(p.state))
 //@   loop * candidate p.prevEnd == old(p.prevEnd)
 //@   loop * candidate forall(i, 0, len(p.state), p.state[i] == old(p.state[i]))
@@ -373,6 +383,8 @@ package css
 //@   ensures[F,C08] @same-depth: result == DeclarationGrammar || result == TokenGrammar || result == CommentGrammar || result == AtRuleGrammar || result == CustomPropertyGrammar ==> len(p.state) == old(len(p.state))
 //@   ensures[F,C08] @stack-prefix: forall(i, 0, min(len(p.state), old(len(p.state))), p.state[i] == old(p.state[i]))
 //@   ensures[F,C08] @eof-closed: result == ErrorGrammar && p.err == "" ==> len(p.state) == 1
+//@   ensures[T,C01] @measure: cpMstep(p, result)
+//@   loop * candidate[T] cpM(p) <= old(cpM(p))
 
 //@ func Parser.parseAtRuleUnknown
 //@   preserves[S] cpInv(p) && p.l.r.pos >= old(p.l.r.pos)
@@ -384,8 +396,11 @@ package css
 //@   ensures[F,C08] @same-depth: result == DeclarationGrammar || result == TokenGrammar || result == CommentGrammar || result == AtRuleGrammar || result == CustomPropertyGrammar ==> len(p.state) == old(len(p.state))
 //@   ensures[F,C08] @stack-prefix: forall(i, 0, min(len(p.state), old(len(p.state))), p.state[i] == old(p.state[i]))
 //@   ensures[F,C08] @eof-closed: result == ErrorGrammar && p.err == "" ==> len(p.state) == 1
+//@   ensures[T,C01] @measure: cpMstep(p, result)
+//@   loop * candidate[T] cpM(p) <= old(cpM(p))
 
 //@ func Parser.parseQualifiedRuleDeclarationList
+//@   loop * candidate[T] old(p.tt) != SemicolonToken ==> p.tt == old(p.tt)
 //@   loop * candidate len(p.state) == old(len(p.state))
 //@   loop * candidate p.prevEnd == old(p.prevEnd)
 //@   loop * candidate forall(i, 0, len(p.state), p.state[i] == old(p.state[i]))
@@ -400,6 +415,8 @@ package css
 //@   ensures[F,C08] @same-depth: result == DeclarationGrammar || result == TokenGrammar || result == CommentGrammar || result == AtRuleGrammar || result == CustomPropertyGrammar ==> len(p.state) == old(len(p.state))
 //@   ensures[F,C08] @stack-prefix: forall(i, 0, min(len(p.state), old(len(p.state))), p.state[i] == old(p.state[i]))
 //@   ensures[F,C08] @eof-closed: result == ErrorGrammar && p.err == "" ==> len(p.state) == 1
+//@   ensures[T,C01] @measure: cpMstep(p, result)
+//@   loop * candidate[T] cpM(p) <= old(cpM(p))
 
 //@ func Parser.parseAtRule
 //@   loop * candidate len(p.state) == old(len(p.state))
@@ -414,9 +431,12 @@ package css
 //@   ensures[F,C08] @same-depth: result == DeclarationGrammar || result == TokenGrammar || result == CommentGrammar || result == AtRuleGrammar || result == CustomPropertyGrammar ==> len(p.state) == old(len(p.state))
 //@   ensures[F,C08] @stack-prefix: forall(i, 0, min(len(p.state), old(len(p.state))), p.state[i] == old(p.state[i]))
 //@   ensures[F,C08] @eof-closed: result == ErrorGrammar && p.err == "" ==> len(p.state) == 1
+//@   ensures[T,C01] @measure: cpMstep(p, result)
+//@   loop * candidate[T] cpM(p) <= old(cpM(p))
 //@   requires[S] p.tt == AtKeywordToken
 //@   loop * decreases len(p.l.r.buf) - p.l.r.pos
 //@ func Parser.parseQualifiedRule
+//@   loop * candidate[T] first ==> p.tt == old(p.tt) && cpM(p) == old(cpM(p))
 //@   loop * candidate len(p.state) == old(len(p.state))
 //@   loop * candidate p.prevEnd == old(p.prevEnd)
 //@   loop * candidate forall(i, 0, len(p.state), p.state[i] == old(p.state[i]))
@@ -431,8 +451,11 @@ package css
 //@   ensures[F,C08] @same-depth: result == DeclarationGrammar || result == TokenGrammar || result == CommentGrammar || result == AtRuleGrammar || result == CustomPropertyGrammar ==> len(p.state) == old(len(p.state))
 //@   ensures[F,C08] @stack-prefix: forall(i, 0, min(len(p.state), old(len(p.state))), p.state[i] == old(p.state[i]))
 //@   ensures[F,C08] @eof-closed: result == ErrorGrammar && p.err == "" ==> len(p.state) == 1
+//@   ensures[T,C01] @measure: cpMstep(p, result)
+//@   loop * candidate[T] cpM(p) <= old(cpM(p))
 //@   loop * decreases 2*(len(p.l.r.buf) - p.l.r.pos) + ite(first, 1, 0)
 //@ func Parser.parseDeclaration
+//@   requires[T] p.tt != ErrorToken
 //@   loop * candidate 0 <= offset && offset <= p.l.r.pos
 //@   loop * candidate len(p.state) == old(len(p.state))
 //@   loop * candidate p.prevEnd == old(p.prevEnd)
@@ -446,6 +469,8 @@ package css
 //@   ensures[F,C08] @same-depth: result == DeclarationGrammar || result == TokenGrammar || result == CommentGrammar || result == AtRuleGrammar || result == CustomPropertyGrammar ==> len(p.state) == old(len(p.state))
 //@   ensures[F,C08] @stack-prefix: forall(i, 0, min(len(p.state), old(len(p.state))), p.state[i] == old(p.state[i]))
 //@   ensures[F,C08] @eof-closed: result == ErrorGrammar && p.err == "" ==> len(p.state) == 1
+//@   ensures[T,C01] @measure: cpMstep(p, result)
+//@   loop * candidate[T] cpM(p) <= old(cpM(p))
 //@   loop * candidate len(p.buf) >= 1
 //@   loop * candidate 0 <= j && j <= i && i <= len(p.buf)
 //@   loop * candidate 1 <= i && i <= len(p.buf)
@@ -464,11 +489,14 @@ package css
 //@   ensures[F,C08] @same-depth: result == DeclarationGrammar || result == TokenGrammar || result == CommentGrammar || result == AtRuleGrammar || result == CustomPropertyGrammar ==> len(p.state) == old(len(p.state))
 //@   ensures[F,C08] @stack-prefix: forall(i, 0, min(len(p.state), old(len(p.state))), p.state[i] == old(p.state[i]))
 //@   ensures[F,C08] @eof-closed: result == ErrorGrammar && p.err == "" ==> len(p.state) == 1
+//@   ensures[T,C01] @measure: cpMstep(p, result)
+//@   loop * candidate[T] cpM(p) <= old(cpM(p))
 //@   requires[S] tokOK(tt, data, p) && (tt == RightBraceToken ==> p.l.r.pos >= 1) && tt != CommentToken
 //@   requires[F] p.err != ""
 //@   loop 1 invariant tokOK(tt, data, p) && (tt == RightBraceToken ==> p.l.r.pos >= 1) && tt != CommentToken
 //@   loop 1 decreases ite(tt == ErrorToken, 0, len(p.l.r.buf) - p.l.r.pos + 1)
 //@ func Parser.parseCustomProperty
+//@   requires[T] p.tt != ErrorToken
 //@   loop * candidate len(p.state) == old(len(p.state))
 //@   loop * candidate p.prevEnd == old(p.prevEnd)
 //@   loop * candidate forall(i, 0, len(p.state), p.state[i] == old(p.state[i]))
@@ -481,6 +509,8 @@ package css
 //@   ensures[F,C08] @same-depth: result == DeclarationGrammar || result == TokenGrammar || result == CommentGrammar || result == AtRuleGrammar || result == CustomPropertyGrammar ==> len(p.state) == old(len(p.state))
 //@   ensures[F,C08] @stack-prefix: forall(i, 0, min(len(p.state), old(len(p.state))), p.state[i] == old(p.state[i]))
 //@   ensures[F,C08] @eof-closed: result == ErrorGrammar && p.err == "" ==> len(p.state) == 1
+//@   ensures[T,C01] @measure: cpMstep(p, result)
+//@   loop * candidate[T] cpM(p) <= old(cpM(p))
 //@   loop 1 invariant fresh(val)
 //@   loop 1 decreases len(p.l.r.buf) - p.l.r.pos
 
@@ -494,6 +524,7 @@ package css
 //@   ensures[F,C08] @same-depth: result0 == DeclarationGrammar || result0 == TokenGrammar || result0 == CommentGrammar || result0 == AtRuleGrammar || result0 == CustomPropertyGrammar ==> len(p.state) == old(len(p.state))
 //@   ensures[F,C08] @stack-prefix: forall(i, 0, min(len(p.state), old(len(p.state))), p.state[i] == old(p.state[i]))
 //@   ensures[F,C08] @eof-closed: result0 == ErrorGrammar && p.err == "" ==> len(p.state) == 1
+//@   ensures[T,C01] @progress: result0 != ErrorGrammar ==> cpM(p) < old(cpM(p))
 //@ func Parser.Err
 //@   requires[S] p != nil && p.l != nil && lexInv(p.l) && 0 <= p.errPos && p.errPos <= len(p.l.r.buf)-1
 //@   ensures[F,C15] @grammar-error: len(p.err) != 0 ==> result != nil
